@@ -400,22 +400,50 @@ def main_check(prop, module, argv):
   args = ap.parse_args(argv)
   ctx = Ctx(prop, args.tier, args.seed)
   spec = module.SPEC
+  # --- stage 1: things that live entirely in /verif (Lean build, axiom audit). A failure here cannot be caused by
+  # a change to /repo and is an infrastructure failure (exit 2), never a verdict.
   try:
     lean_build([f'Flax.Props.{prop}'] + list(spec.get('exes', [])))
     aud = audit(prop, thorough=(args.tier == 'thorough'))
-    if args.replay:
-      obj = json.load(open(os.path.join(VERIF, args.replay) if not os.path.isabs(args.replay) else args.replay))
-      if isinstance(obj.get('case'), dict) and 'model_disagreements_in_same_run' in obj['case']:
-        obj['case'] = obj['case']['case']  # undo the wrapping done by finish()
-      still = module.replay(ctx, obj)
-      print(f'[{prop}] replay {"reproduces the violation" if still else "passes"}')
-      return 1 if still else 0
-    module.run(ctx)
-    return finish(ctx, aud, spec)
   except InfraError as e:
     print(f'[{prop}] INFRASTRUCTURE FAILURE (exit 2, not a verdict): {e}', file=sys.stderr)
     return 2
   except Exception:
     traceback.print_exc()
-    print(f'[{prop}] INFRASTRUCTURE FAILURE (exit 2, not a verdict): harness crashed', file=sys.stderr)
+    print(f'[{prop}] INFRASTRUCTURE FAILURE (exit 2, not a verdict): build/audit crashed', file=sys.stderr)
+    return 2
+  if args.replay:
+    try:
+      obj = json.load(open(os.path.join(VERIF, args.replay) if not os.path.isabs(args.replay) else args.replay))
+      if isinstance(obj.get('case'), dict) and 'model_disagreements_in_same_run' in obj['case']:
+        obj['case'] = obj['case']['case']  # undo the wrapping done by finish()
+      still = module.replay(ctx, obj)
+    except Exception:
+      traceback.print_exc()
+      print(f'[{prop}] INFRASTRUCTURE FAILURE (exit 2, not a verdict): replay crashed', file=sys.stderr)
+      return 2
+    print(f'[{prop}] replay {"reproduces the violation" if still else "passes"}')
+    return 1 if still else 0
+  # --- stage 2: the correspondence run against the code under test. The harness never crashes on the unchanged
+  # tree (that is what the multi-seed clean runs establish), so if it cannot complete, the code under test behaved in
+  # a way the correspondence does not cover: the tie between model and code is broken. Per the brief this is
+  # reported as a violation without a concrete failing input (after any concrete violations found before the stop).
+  try:
+    module.run(ctx)
+  except Exception as e:
+    tb = traceback.format_exc()
+    sys.stderr.write(tb)
+    ctx.violation(
+      'correspondence-could-not-complete',
+      f'the correspondence run of {prop} stopped with {type(e).__name__}: {str(e)[:300]} — the implementation behaved in a way '
+      f'the harness/model tie does not cover; the theorems of Flax/Props/{prop}.lean are no longer shown to apply to this code',
+      {'correspondence': f'harness/props/{prop.lower()}.py', 'theorems': f'lean/Flax/Props/{prop}.lean',
+       'exception': type(e).__name__, 'message': str(e)[:1000], 'traceback_tail': tb[-1500:]},
+      concrete=False,
+    )
+  try:
+    return finish(ctx, aud, spec)
+  except Exception:
+    traceback.print_exc()
+    print(f'[{prop}] INFRASTRUCTURE FAILURE (exit 2, not a verdict): could not write evidence', file=sys.stderr)
     return 2
